@@ -5,30 +5,30 @@ import FontcProofs.CastsFields
 namespace Fontc.Casts
 open Fontc
 
-theorem profile_independent (f : Field) (v : Rat) (h : profileSensitive f = false) :
-    fieldPipeline f v .debug = fieldPipeline f v .release := by
-  cases f <;> simp [profileSensitive] at h <;> rfl
+theorem profile_independent_old (f : Field) (v : Rat) (h : profileSensitiveOld f = false) :
+    fieldPipelineOld f v .debug = fieldPipelineOld f v .release := by
+  cases f <;> simp [profileSensitiveOld] at h <;> rfl
 
-theorem profile_agree_iff (f : Field) (v : Rat) :
-    fieldPipeline f v .debug = fieldPipeline f v .release ↔ ¬ Overflows f v := by
+theorem profile_agree_iff_old (f : Field) (v : Rat) :
+    fieldPipelineOld f v .debug = fieldPipelineOld f v .release ↔ ¬ OverflowsOld f v := by
   cases f
   case pointDelta | tsb =>
-    simp only [fieldPipeline, Overflows, subI16, Int.sub_zero]
+    simp only [fieldPipelineOld, OverflowsOld, subI16, Int.sub_zero]
     by_cases h : inI16 v.floor
     · rw [if_pos h, if_pos h]; exact ⟨fun _ hn => hn h, fun _ => rfl⟩
     · rw [if_neg h, if_neg h]; exact ⟨fun hc => (by cases hc), fun hn => by exfalso; exact hn h⟩
   case endPt =>
-    simp only [fieldPipeline, Overflows, subU16]
+    simp only [fieldPipelineOld, OverflowsOld, subU16]
     have := wrapU16_range (cnt v)
     unfold inU16 at this
     by_cases h : 0 ≤ wrapU16 (cnt v) - 1
     · rw [if_pos h, if_pos h]; exact ⟨fun _ => (by omega), fun _ => rfl⟩
     · rw [if_neg h, if_neg h]; exact ⟨fun hc => (by cases hc), fun hw => by exfalso; omega⟩
   case compositeTotal =>
-    simp only [fieldPipeline, Overflows, addU16, Int.zero_add]
+    simp only [fieldPipelineOld, OverflowsOld, addU16, Int.zero_add]
     by_cases h : cnt v ≤ 65535
     · rw [if_pos h, if_pos h]; exact ⟨fun _ => (by omega), fun _ => rfl⟩
     · rw [if_neg h, if_neg h]; exact ⟨fun hc => (by cases hc), fun hw => by exfalso; omega⟩
-  all_goals (simp only [Overflows, not_false_eq_true, iff_true]; rfl)
+  all_goals (simp only [OverflowsOld, not_false_eq_true, iff_true]; rfl)
 
 end Fontc.Casts
